@@ -7,68 +7,93 @@
    all fault placements) and over the configuration g (lookahead, send_bytes,
    high watermark, send-buffer size, select or poll).
 
-   Two findings of the real code bound what can be proved: F17 (channel
-   construction outside handle_accept's try) and F18 (worker-side
-   send_continue() with do_close=True).  For each affected statement the full
-   form is refuted by a concrete schedule and proved outside the finding's class. *)
+   Two facts about the source enter the model as configuration knobs and are
+   REGENERATED FROM THE SOURCE on every run into Gen/GenChanKnobs.v:
+     src_wc_close     the do_close with which service() reaches _flush_some
+                      through send_continue()           (finding F18: it was True)
+     src_init_guarded handle_accept constructs the channel inside a try that
+                      catches OSError                   (finding F17: it was not)
+   The headline theorems C13_loop / C13_listener / C13_once are stated for the
+   configurations that have the source's values; their proofs need
+   src_wc_close = false and src_init_guarded = true BY COMPUTATION, so a
+   regression of either repair (/repo 8a2ea3a, da3bf3a) stops this file from
+   compiling.  The statements that were refuted before the repairs are kept as
+   statements about the old knob values. *)
 From Coq Require Import List Arith Bool.
+From WV Require Import Gen.GenChanKnobs.
 From WV Require Import Model.ChanFault Proof.ChanFaultSpec Proof.ChanFaultWorkers Proof.ChanFaultListener
                        Proof.ChanFaultOnce Proof.ChanFaultWitness Proof.ChanFaultIso.
 Import ListNotations.
 
-(* the full statements (g ranges over all configurations, the code as it is -- wc_close g = true,
-   init_guarded g = false -- among them) *)
-Definition C13_loop_full : Prop := forall g sched, loop_ok (trace g sched).
-Definition C13_listener_full : Prop := forall g sched, listener_ok (run g sched).
-Definition C13_once_full : Prop := forall g sched, once_ok (run g sched) (trace g sched).
+(* the configurations that have what the source has now *)
+Definition as_source (g : cfg) : Prop :=
+  wc_close g = src_wc_close /\ init_guarded g = src_init_guarded.
 
-(* no worker is ever killed: full strength *)
+(* ---- the headline theorems: every schedule, every fault placement ------------------------------ *)
+
+(* no step of the I/O thread ends in an escaped exception *)
+Theorem C13_loop : forall g sched, as_source g -> loop_ok (trace g sched).
+Proof. intros g sched [H _]. apply loop_repaired. rewrite H. reflexivity. Qed.
+Print Assumptions C13_loop.
+
+(* the listening socket and its trigger are in the socket map, open, in every reachable state *)
+Theorem C13_listener : forall g sched, as_source g -> listener_ok (run g sched).
+Proof. intros g sched [_ H]. apply listener_repaired. rewrite H. reflexivity. Qed.
+Print Assumptions C13_listener.
+
+(* every socket.close(), every deletion from the socket map and from active_channels and every closing of
+   output buffers is done by the I/O thread; at most one socket.close() per channel; after it the descriptor
+   is out of the map and of active_channels and the buffers have been closed *)
+Theorem C13_once : forall g sched, as_source g -> once_ok (run g sched) (trace g sched).
+Proof. intros g sched [H _]. apply once_repaired. rewrite H. reflexivity. Qed.
+Print Assumptions C13_once.
+
+(* no worker is ever killed (any configuration) *)
 Theorem C13_workers : forall g sched, workers_ok (trace g sched).
 Proof. exact workers_never_die. Qed.
 Print Assumptions C13_workers.
 
-(* the loop never dies -- outside F18 *)
-Theorem C13_loop_partial : forall g sched, no_wcont (trace g sched) -> loop_ok (trace g sched).
-Proof. exact loop_partial. Qed.
-Print Assumptions C13_loop_partial.
-
-(* ... and inside F18 it does: a worker closes the descriptor between the I/O thread's
-   readable()/writable() pass and its select() call *)
-Theorem C13_loop_refuted : ~ C13_loop_full.
-Proof. intro H. destruct loop_refuted_w as [_ N]. apply N. apply H. Qed.
-Print Assumptions C13_loop_refuted.
-
-(* the listener and its trigger stay in the map -- outside F17 *)
-Theorem C13_listener_partial : forall g sched, no_setup_fault (trace g sched) -> listener_ok (run g sched).
-Proof. exact listener_partial. Qed.
-Print Assumptions C13_listener_partial.
-
-(* with the repair of F17 (channel construction inside handle_accept's try): every execution *)
-Theorem C13_listener_repaired : forall g sched, init_guarded g = true -> listener_ok (run g sched).
-Proof. exact listener_repaired. Qed.
-Print Assumptions C13_listener_repaired.
-
-Theorem C13_listener_refuted : ~ C13_listener_full.
-Proof. intro H. destruct listener_refuted_w as [_ N]. apply N. apply H. Qed.
-Print Assumptions C13_listener_refuted.
-
-(* torn down once, by the I/O thread only, everything released -- outside F18 *)
-Theorem C13_once_partial : forall g sched, no_wcont (trace g sched) -> once_ok (run g sched) (trace g sched).
-Proof. exact once_partial. Qed.
-Print Assumptions C13_once_partial.
-
-(* with the repair of F18 (do_close=False on the worker's path to _flush_some): every execution *)
-Theorem C13_once_repaired : forall g sched, wc_close g = false -> once_ok (run g sched) (trace g sched).
-Proof. exact once_repaired. Qed.
-Print Assumptions C13_once_repaired.
-
+(* ---- the same, per knob, for any configuration ----------------------------------------------------- *)
 Theorem C13_loop_repaired : forall g sched, wc_close g = false -> loop_ok (trace g sched).
 Proof. exact loop_repaired. Qed.
 Print Assumptions C13_loop_repaired.
 
-Theorem C13_once_refuted : ~ C13_once_full.
-Proof. intro H. destruct once_refuted_w as [_ N]. apply N. apply H. Qed.
-Print Assumptions C13_once_refuted.
+Theorem C13_once_repaired : forall g sched, wc_close g = false -> once_ok (run g sched) (trace g sched).
+Proof. exact once_repaired. Qed.
+Print Assumptions C13_once_repaired.
+
+Theorem C13_listener_repaired : forall g sched, init_guarded g = true -> listener_ok (run g sched).
+Proof. exact listener_repaired. Qed.
+Print Assumptions C13_listener_repaired.
+
+(* ---- whatever the knobs: outside the executions in which the old defects could act ------------------ *)
+Theorem C13_loop_partial : forall g sched, no_wcont (trace g sched) -> loop_ok (trace g sched).
+Proof. exact loop_partial. Qed.
+Print Assumptions C13_loop_partial.
+
+Theorem C13_listener_partial : forall g sched, no_setup_fault (trace g sched) -> listener_ok (run g sched).
+Proof. exact listener_partial. Qed.
+Print Assumptions C13_listener_partial.
+
+Theorem C13_once_partial : forall g sched, no_wcont (trace g sched) -> once_ok (run g sched) (trace g sched).
+Proof. exact once_partial. Qed.
+Print Assumptions C13_once_partial.
+
+(* ---- the old knob values: what was wrong before the repairs (findings F17, F18; see Findings/C13_F17_F18.v) *)
+(* wc_close = true: a worker closes the descriptor between the I/O thread's readable()/writable() pass and
+   its select() call; EBADF escapes wasyncore.poll *)
+Theorem C13_loop_refuted_old : exists g sched, wc_close g = true /\ ~ loop_ok (trace g sched).
+Proof. exists wcfg, w_loop. split; [reflexivity|exact (proj2 loop_refuted_w)]. Qed.
+Print Assumptions C13_loop_refuted_old.
+
+Theorem C13_once_refuted_old : exists g sched, wc_close g = true /\ ~ once_ok (run g sched) (trace g sched).
+Proof. exists wcfg, w_once. split; [reflexivity|exact (proj2 once_refuted_w)]. Qed.
+Print Assumptions C13_once_refuted_old.
+
+(* init_guarded = false: an OSError in HTTPChannel.__init__ closes the listener and its trigger *)
+Theorem C13_listener_refuted_old : exists g sched, init_guarded g = false /\ ~ listener_ok (run g sched).
+Proof. exists wcfg, w_listener. split; [reflexivity|exact (proj2 listener_refuted_w)]. Qed.
+Print Assumptions C13_listener_refuted_old.
 
 (* ---- isolation: the unwinding conditions of non-interference between the two connections.
    What is NOT mechanised: their composition into one statement about two whole runs (the I/O thread
